@@ -2,6 +2,7 @@ import Driver.Util
 import PsVerif.Model.Cipher
 import PsVerif.Model.T1Encode
 import Driver.Canon
+import PsVerif.Model.PFB
 /-!
 `psdriver`: reads one case per line from stdin, prints the model's canonical result
 line for each.  A line the driver cannot parse gives `bad-op` (never a default).
@@ -48,6 +49,14 @@ def handle (line : String) : String :=
       let (s1, r) := execute (fuelFor m bs.length) m s0 (toU8 bs) none
       Driver.Canon.render s1 r
     | _, _ => "bad-op"
+  | ["pfb", stream, sizes, sched] =>
+    match bytesOfHex stream, mapM? String.toNat? (splitList sizes ","), mapM? String.toNat? (splitList sched ",") with
+    | some bs, some ns, some sc =>
+      let calls := PFB.drain { src := toU8 bs, sched := sc } ns
+      String.intercalate "|" (calls.map (fun c =>
+        hexOfBytes (ofU8 c.1) ++ ":" ++ (match c.2 with
+          | none => "nil" | some .eof => "EOF" | some .unexpectedEOF => "unexpectedEOF" | some .invalidPFB => "invalidPFB")))
+    | _, _, _ => "bad-op"
   | ["eexecdec", r, h] =>
     match r.toNat?, bytesOfHex h with
     | some r, some bs => hexOfBytes (ofU8 (Cipher.decrypt (UInt16.ofNat r) (toU8 bs)))
